@@ -4,6 +4,9 @@ import Pi2.Match
 import Pi2.Rules
 import Pi2.Tracker
 import Pi2.Deserialize
+import Pi2.Proof
+import Pi2.MM.Compressed
+import Pi2.Taut
 import Pi2.PrettyPat
 /-!
 # Wire syntax of the correspondence protocol (DESIGN.md §9b): S-expressions
@@ -242,3 +245,70 @@ def pystToStrX (s : PySt) : String :=
   "(pystate " ++ phaseToStr s.phase ++ " (stack " ++ " ".intercalate (s.stack.reverse.map fun (t, _) => ttermToStrX t) ++
     ") (memory " ++ " ".intercalate (s.memory.map ttermToStrX) ++ ") (claims " ++
     " ".intercalate (s.claims.map fun c => patToStr c.expand) ++ "))"
+
+
+open Sexp in
+partial def pfOfSexp : Sexp → Option Pf
+  | .list [.atom "prop1"] => some .prop1
+  | .list [.atom "prop2"] => some .prop2
+  | .list [.atom "prop3"] => some .prop3
+  | .list [.atom "quantifier"] => some .quantifier
+  | .list [.atom "mp", l, r] => do pure (.mp (← pfOfSexp l) (← pfOfSexp r))
+  | .list [.atom "gen", p, x] => do pure (.gen (← pfOfSexp p) (← nat? x))
+  | .list [.atom "dyninst", p, d] => do pure (.dynInst (← pfOfSexp p) (← nmapOfSexp d))
+  | .list [.atom "axiom", a] => do pure (.loadAxiom (← npatOfSexp a))
+  | _ => none
+
+open Sexp in
+partial def moduleOfSexp : Sexp → Option PModule
+  | .list [.atom "module", .list (.atom "axioms" :: ax), .list (.atom "claims" :: cl), .list (.atom "proofs" :: pf),
+           .list (.atom "subs" :: subs)] => do
+      pure (.mk (← ax.mapM npatOfSexp) (← cl.mapM npatOfSexp) (← pf.mapM pfOfSexp) (← subs.mapM moduleOfSexp))
+  | _ => none
+
+def callToStr : Call → String
+  | .evar x => s!"(evar {x})" | .svar x => s!"(svar {x})" | .symbol x => s!"(symbol {x})"
+  | .metavar id a b c d e => s!"(metavar {id} {natsToStr a} {natsToStr b} {natsToStr c} {natsToStr d} {natsToStr e})"
+  | .implies => "(implies)" | .app => "(app)" | .ex x => s!"(exists {x})" | .mu x => s!"(mu {x})"
+  | .esubst x => s!"(esubst {x})" | .ssubst x => s!"(ssubst {x})"
+  | .prop1 => "(prop1)" | .prop2 => "(prop2)" | .prop3 => "(prop3)" | .quantifier => "(quantifier)"
+  | .mp => "(mp)" | .gen x => s!"(gen {x})"
+  | .instantiate ks => s!"(instantiate {natsToStr ks})" | .instantiatePattern ks => s!"(instantiate-pattern {natsToStr ks})"
+  | .pop => "(pop)" | .save => "(save)" | .load t => s!"(load {ttermToStr t})"
+  | .publishProof => "(publish-proof)" | .publishAxiom => "(publish-axiom)" | .publishClaim => "(publish-claim)"
+  | .intoClaim => "(into-claim)" | .intoProof => "(into-proof)"
+
+
+open Sexp in
+partial def formOfSexp : Sexp → Option Form
+  | .atom "bot" => some .bot
+  | .list [.atom "var", n] => do pure (.var (← nat? n))
+  | .list [.atom "imp", a, b] => do pure (.imp (← formOfSexp a) (← formOfSexp b))
+  | _ => none
+
+def cfToStr : CF → String
+  | .bot n => s!"(bot {n})"
+  | .var n i => s!"(var {n} {i})"
+  | .or n l r => s!"(or {n} {cfToStr l} {cfToStr r})"
+  | .and n l r => s!"(and {n} {cfToStr l} {cfToStr r})"
+
+open Sexp in
+partial def cfOfSexp : Sexp → Option CF
+  | .list [.atom "bot", .atom b] => some (.bot (b == "true"))
+  | .list [.atom "var", .atom b, i] => do pure (.var (b == "true") (← nat? i))
+  | .list [.atom "or", .atom b, l, r] => do pure (.or (b == "true") (← cfOfSexp l) (← cfOfSexp r))
+  | .list [.atom "and", .atom b, l, r] => do pure (.and (b == "true") (← cfOfSexp l) (← cfOfSexp r))
+  | _ => none
+
+def intOfAtom (s : String) : Option Int :=
+  if s.startsWith "-" then (s.drop 1).toNat?.map (fun n => -(n : Int)) else s.toNat?.map (fun n => (n : Int))
+
+open Sexp in
+def clausesOfSexp : Sexp → Option (List (List Int))
+  | .list cs => cs.mapM fun c => match c with
+      | .list xs => xs.mapM fun x => match x with | .atom a => intOfAtom a | _ => none
+      | _ => none
+  | _ => none
+
+def clausesToStr (cs : List (List Int)) : String :=
+  "(" ++ " ".intercalate (cs.map fun c => "(" ++ " ".intercalate (c.map toString) ++ ")") ++ ")"
